@@ -6,6 +6,7 @@ with the reference state of the committed transactions."""
 import random
 from vlib import *
 from crashcheck import *
+from walcheck import driver_input, run_driver
 
 MODE = "c01"
 
@@ -31,11 +32,40 @@ def check_history(rng, res, mode, mem_kb, nunits, limit, torn=True, prop="C01"):
                     cut = rng.choice([512, 2048, 3584])
                 jobs.append((p, min(cut, n - 1)))
 
+        model_inputs = []
+
         def one(job):
             p, cut = job
             img = image_at(trace, p, torn=cut)
-            return job, restart_on(img, TABLES, mem_kb=max(mem_kb, 400))
+            want_model = cut is None and (p % 3 == 0)
+            out = restart_on(img, TABLES, mem_kb=max(mem_kb, 400), want_trace=want_model)
+            if want_model:
+                import shutil
+                shutil.rmtree(out.get("dir", "/nonexistent"), ignore_errors=True)
+                if out["status"] == "ok":
+                    out["model_input"] = driver_input(img, out.get("trace") or [])[0]
+            return job, out
         results = parallel(one, jobs)
+        # recovery model (coq/Model/Wal.v, extracted) vs what the engine's recovery wrote, on a third of the images
+        mi = [(job, out["model_input"]) for job, out in results if "model_input" in out]
+        if mi:
+            rcm, mouts = run_driver("".join(x for _, x in mi))
+            if rcm != 0 or len(mouts) != len(mi):
+                res.broken.append("recovery model driver failed (rc=%d)" % rcm)
+            else:
+                for (job, _), o in zip(mi, mouts):
+                    res.extra["model_images"] = res.extra.get("model_images", 0) + 1
+                    flags = dict(x.split("=") for x in o.split("|")[0].split()[1:])
+                    parts = o.split("|")
+                    if parts[1].strip() != "model-vs-engine:" and len(res.mismatches) < 5:
+                        res.mismatches.append((render_replay(h, job[0], None), "recovered pages: engine differs from the recovery model: " + parts[1][:400]))
+                    for k in ("log_ok", "chains_ok", "strict_ok", "fresh_pages_ok", "disk_ok"):
+                        if flags.get(k) != "1" and len(res.mismatches) < 5:
+                            res.mismatches.append((render_replay(h, job[0], None), "a hypothesis of the recovery theorems does not hold on a real crash image: %s=0 (%s)" % (k, o[:200])))
+                    if flags.get("image_wf") == "1":
+                        res.extra["model_images_wf"] = res.extra.get("model_images_wf", 0) + 1
+                        if not parts[2].strip().endswith("committed-vs-engine:") and len(res.oracle_failures) < 5:
+                            res.oracle_failures.append((render_replay(h, job[0], None), "recovered slots differ from the committed state (theorem recovery_restores_committed_state applies: image_wf holds): " + parts[2][:400]))
         for (p, cut), out in results:
             allowed, nret = allowed_at(trace, p, order)
             if cut is not None and p < len(trace):
